@@ -76,7 +76,7 @@ func Run(r *ev.Run, replay string) {
 	runCases(r, wit, false)
 	r.Count("witness_cases", int64(len(wit)))
 
-	n := r.N(1200, 12000)
+	n := r.N(2000, 12000)
 	shards := r.N(4, 16)
 	var wg sync.WaitGroup
 	for sh := 0; sh < shards; sh++ {
